@@ -16,5 +16,7 @@ LinearEv ==
     /\ Len(Ev.rand) >= 2
     /\ \A r \in 1..Len(Ev.rand) : Len(Ev.rand[r].c) = Ev.n /\ Ev.rand[r].out = Dot(Ev.rand[r].c, Ev.units, 1)
     /\ \A i \in 1..Len(Ev.used) : Ev.units[Ev.used[i]] # "0x0"
+    \* constraints of a component the instance does not use are absent from the composition
+    /\ \A i \in 1..Len(Ev.unused) : Ev.units[Ev.unused[i]] = "0x0"
 Next == LinearEv \/ (Is("reset") /\ Consume)
 =============================================================================
